@@ -8,7 +8,7 @@ import VaxisModel.Lemmas.ParserRun
 
 namespace VaxisModel.Lemmas.ParserRunFine
 open VaxisModel.Model.ParserTable VaxisModel.Model.Parser VaxisModel.Model.ParserRun
-open VaxisModel.Model.ParserRunFine
+open VaxisModel.Model.ParserRunFine VaxisModel.Lemmas.ParserRun
 
 /-! ### lists -/
 
@@ -1146,5 +1146,155 @@ theorem run_sim (T : Table) (hT : TimerOk T) (fls : List FLabel) (f f' : FSys) (
 
 theorem abs_init (T : Table) : abs T FSys.init false = Sys.init := by
   simp [abs, absPs, absPc, FSys.init, Sys.init, nMid, nFresh, nStale]
+
+/-! ### reachable states -/
+
+/-- The ESC arm of `anywhere` returns `escape`, not nil. -/
+theorem handTable_timerOk : TimerOk handTable := by
+  intro ps r hs
+  rw [startsTimer_hand]
+  by_cases hr : r = 0x1B
+  · subst hr
+    exfalso
+    cases he : ps.exit with
+    | none => have := VaxisModel.Lemmas.Parser.pstep_esc ps he; simp only [pstep] at this; rw [this] at hs; cases hs
+    | some f => have := VaxisModel.Lemmas.Parser.pstep_esc_exit ps f he; simp only [pstep] at this; rw [this] at hs; cases hs
+  · simp [hr]
+
+/-- Everything reachable from the initial state satisfies the invariants and is matched by an atomic run. -/
+theorem reach_sim (T : Table) (hT : TimerOk T) (fls : List FLabel) (f : FSys) (out : List Seq)
+    (h : FSys.run T FSys.init fls = some (f, out)) :
+    FInv f ∧ CInv f ∧ ∃ ls b oa, Sys.run T Cfg.fixed Sys.init ls = some (abs T f b, oa) ∧
+      (needArmed T f = true → b = true) ∧ oa = out ++ pend T f := by
+  refine ⟨run_inv T hT fls _ f out FInv_init h, ?_, ?_⟩
+  · clear hT
+    have : ∀ (fls : List FLabel) (f0 f : FSys) (out : List Seq), CInv f0 → FSys.run T f0 fls = some (f, out) → CInv f := by
+      intro fls
+      induction fls with
+      | nil => intro f0 f out h0 h; simp only [FSys.run, Option.some.injEq, Prod.mk.injEq] at h; obtain ⟨rfl, _⟩ := h; exact h0
+      | cons l fls ih =>
+        intro f0 f out h0 h
+        simp only [FSys.run] at h
+        cases h1 : FSys.step T f0 l with
+        | none => simp [h1] at h
+        | some r1 =>
+          obtain ⟨f1, o1⟩ := r1
+          simp only [h1] at h
+          cases h2 : FSys.run T f1 fls with
+          | none => simp [h2] at h
+          | some r2 =>
+            obtain ⟨f2, o2⟩ := r2
+            simp only [h2, Option.some.injEq, Prod.mk.injEq] at h
+            obtain ⟨rfl, _⟩ := h
+            exact ih f1 f2 o2 (step_CInv T f0 f1 l o1 h0 h1) h2
+    exact this fls _ f out CInv_init h
+  · obtain ⟨ls, b, oa, h1, h2, h3⟩ := run_sim T hT fls FSys.init f out false (by simp [needArmed, FSys.init])
+      FInv_init CInv_init h
+    rw [abs_init] at h1
+    refine ⟨ls, b, oa, h1, h2, ?_⟩
+    simpa [pend, FSys.init] using h3
+
+/-- Where the atomic system has finished, what it is ahead by ends with the EOF — or nothing is
+    pending and the EOF has been sent. -/
+theorem absPc_done_pend (T : Table) (f : FSys) (h : absPc T f = .done) :
+    (pend T f = [] ∧ ((∃ v, f.mpc = .fin .close v) ∨ f.mpc = .done)) ∨ ∃ X, pend T f = X ++ [.eof] := by
+  cases hpc : f.mpc with
+  | bumped i =>
+    right
+    simp only [absPc, hpc] at h
+    split at h
+    · rename_i hs; exact ⟨(VaxisModel.Model.Parser.step T f.ps i).out, by simp [pend, hpc, hs]⟩
+    · cases h
+  | stepped stop =>
+    cases stop with
+    | true => right; exact ⟨[], by simp [pend, hpc]⟩
+    | false => simp [absPc, hpc] at h
+  | fin st v =>
+    cases st with
+    | close => left; exact ⟨by simp [pend, hpc], Or.inl ⟨_, rfl⟩⟩
+    | unlock => right; exact ⟨[], by simp [pend, hpc]⟩
+    | emit => right; exact ⟨[], by simp [pend, hpc]⟩
+    | stop => cases v with
+      | true => right; exact ⟨[], by simp [pend, hpc]⟩
+      | false => simp [absPc, hpc] at h
+    | lock => cases v with
+      | true => right; exact ⟨[], by simp [pend, hpc]⟩
+      | false => simp [absPc, hpc] at h
+    | bump => cases v with
+      | true => right; exact ⟨[], by simp [pend, hpc]⟩
+      | false => simp [absPc, hpc] at h
+  | done => left; exact ⟨by simp [pend, hpc], Or.inr rfl⟩
+  | _ => simp [absPc, hpc] at h
+
+theorem pend_quiescent (T : Table) (f : FSys) (h : f.mpc = .atSelect ∨ f.mpc = .inRead ∨ f.mpc = .done) :
+    pend T f = [] := by
+  rcases h with h | h | h <;> simp [pend, h]
+
+/-- Once the channel is closed no statement of any goroutine emits. -/
+theorem closed_step_silent (T : Table) (f f' : FSys) (l : FLabel) (o : List Seq) (hinv : FInv f)
+    (hc : f.chanClosed = true) (h : FSys.step T f l = some (f', o)) : o = [] ∧ f'.chanClosed = true := by
+  have hd := hinv.c1 hc
+  cases l with
+  | closeSig => simp only [FSys.step, Option.some.injEq, Prod.mk.injEq] at h; obtain ⟨rfl, rfl⟩ := h; exact ⟨rfl, hc⟩
+  | readRet i => simp [FSys.step, hd] at h
+  | main => simp [FSys.step, mainStep, hd] at h
+  | expire =>
+    have := armed_none hinv (by rw [hd]; rfl)
+    simp [FSys.step, this] at h
+  | cb i =>
+    simp only [FSys.step] at h
+    unfold cbStep at h
+    split at h
+    · cases h
+    · rename_i g pc hi
+      have hmem : (g, pc) ∈ f.cbs := List.mem_of_getElem? hi
+      cases pc <;> simp only at h
+      case started =>
+        split at h
+        · simp only [Option.some.injEq, Prod.mk.injEq] at h; obtain ⟨rfl, rfl⟩ := h; exact ⟨rfl, hc⟩
+        · cases h
+      case passed =>
+        exfalso
+        have h1 := hinv.p1 _ hmem rfl
+        have h2 := (hinv.g1 _ hmem).2 (by rw [hd]; rfl)
+        simp only at h1 h2; omega
+      case gone => cases h
+      all_goals (simp only [Option.some.injEq, Prod.mk.injEq] at h; obtain ⟨rfl, rfl⟩ := h; exact ⟨rfl, hc⟩)
+
+/-- A callback that is about to report the Escape key: it holds the mutex, saw the current
+    generation, the channel is open — and (atomic invariant) the parser is in the escape state. -/
+theorem esc_report_state (f : FSys) (hinv : FInv f) (i g : Nat) (hi : f.cbs[i]? = some (g, .passed))
+    (b : Bool) (hs : SInv (abs handTable f b)) :
+    f.mutex = some .cb ∧ g = f.escGen ∧ f.chanClosed = false ∧ f.ps.state = .escape := by
+  have hmem : (g, CbPc.passed) ∈ f.cbs := List.mem_of_getElem? hi
+  obtain ⟨hm, hnh, hn1⟩ := cb_excl f hinv i g _ hi rfl
+  have hge : g = f.escGen := hinv.p1 _ hmem rfl
+  subst hge
+  have hns : strict f.mpc = false := by
+    cases hs : strict f.mpc with
+    | false => rfl
+    | true => have := (hinv.g1 _ hmem).2 hs; simp only at this; omega
+  have hcc : f.chanClosed = false := by
+    cases hc : f.chanClosed with
+    | false => rfl
+    | true => have := hinv.c1 hc; rw [this] at hns; cases hns
+  refine ⟨hm, rfl, hcc, ?_⟩
+  have s4 := nCrit_set f.cbs i f.escGen _ .gone hi
+  have s5 := nMid_set f.cbs i f.escGen _ .gone hi
+  have s6 := nMid_le_nCrit (f.cbs.set i (f.escGen, .gone))
+  simp [mid, crit] at s4 s5
+  have hmid0 : nMid f.cbs = 0 := by omega
+  have hfr : 0 < nFresh f.escGen f.cbs := List.countP_pos_iff.mpr ⟨_, hmem, by simp [pre3]⟩
+  obtain ⟨e1, _, _⟩ := abs_nb handTable f b hnh
+  rw [e1] at hs
+  have hnd : absPcNB f.mpc ≠ .done := by
+    cases hpc : f.mpc with
+    | stepped sb => rw [hpc] at hns; cases sb <;> simp_all [strict, absPcNB]
+    | fin st v => rw [hpc] at hns; cases st <;> cases v <;> simp_all [strict, absPcNB]
+    | done => rw [hpc] at hns; cases hns
+    | bumped i => rw [hpc] at hns; cases hns
+    | _ => simp [absPcNB]
+  have := (hs hnd).2.1 (Or.inr (by simp [hfr]))
+  simpa [hmid0] using this
 
 end VaxisModel.Lemmas.ParserRunFine
